@@ -1,14 +1,16 @@
 import MahfModel.Model.LogC15Files
+import MahfModel.Model.LogC15Runs
 open MahfModel MahfModel.Log
 
 def c15 (input implOut : Sexp) : Option Verdict := do
   let r ← (match input with
     | .list (.atom "lg" :: _) => handleProgramFiles input implOut
+    | .list (.atom "lgs" :: _) => handleRuns input implOut
     | .list (.atom "tl" :: _) => handleWitness input implOut
     | .list (.atom "fl" :: _) => handleFloats input implOut
     | .list (.atom "cfg" :: _) => handleConfigX input implOut
     | .list (.atom "exp" :: _) => handleExp input implOut
     | _ => none)
-  pure { agree := Sexp.beq (canonOut r.model) (canonOut (canonPair (canonExp implOut))), holds := r.holds, cls := r.cls, model := r.model }
+  pure { agree := Sexp.beq (canonOut (canonRuns r.model)) (canonOut (canonRuns (canonPair (canonExp implOut)))), holds := r.holds, cls := r.cls, model := r.model }
 
 def main : IO Unit := driverMain (respond c15)
